@@ -32,8 +32,8 @@ SPEC = {
         'name': 'window', 'pkg': '.', 'test': 'TestVerifC08Window',
         'files': [('.', 'harness/root/zz_verif_c08_test.go'), ('.', 'harness/root/zz_verif_c08window_test.go')],
         'prepare': prepare,
-        'model_module': 'Model.C08_Pipeline', 'imports': [],
-        'shard': 150, 'timeout': 1800,
+        'model_module': 'Model.C08_Window', 'imports': [],
+        'shard': 6, 'timeout': 1800,
     }],
     'rule': 'the real pipeline functions of store_message.go on a MessageStore assembled around real secret stores (real ratchets and '
             'sealed envelopes; no orbit-db), with arrival, consumer loop and registrar as threads of the controlled scheduler over '
@@ -46,7 +46,7 @@ SPEC = {
             'delivered events (order), queue, parked sets and consumer state are compared; oracle: every arrived entry the '
             'announcement opens was delivered, exactly once per arrival, with its payload and sender; '
             'non-trivial = at least one arrival and one registration; distinct = scenario x schedule; scripted scenarios: arrivals and the two halves of a registration (RegisterChainKey, flush) as ONE thread in a chosen order, so that an arrival (also of an undecryptable message) falls inside the registration window, 4 fixed + 40 (400) random scripts, 4 (12) schedules each; '
-            'window stream (oracle only, no controlled scheduler): the real consumer loop on ONE sender with 1-140 messages (every other case more than the 100 precomputed keys), newest first / reverse / shuffled / a late block first / in order / the newest first and then ONE batch of older ones that ends with an entry which never opens (nothing else arrives), each entry handled before the next arrives or all at once, the key registered before a chosen arrival; at the end every message the announcement opens was delivered exactly once with its payload, and between paced arrivals every arrived entry is delivered or parked; 24 (400) cases',
+            'window stream (no controlled scheduler; model Model.C08_Window = the consumer loop over the ratchet WITH its key window, run on the same history: the delivered and parked counts each time the loop has come to rest after an arrival, the counters delivered at the end and what stays parked are compared, and the property oracle is evaluated as well): the real consumer loop on ONE sender with 1-140 messages (every other case more than the 100 precomputed keys), newest first / reverse / shuffled / a late block first / in order / the newest first and then ONE batch of older ones that ends with an entry which never opens (nothing else arrives), each entry handled before the next arrives or all at once, the key registered before a chosen arrival; at the end every message the announcement opens was delivered exactly once with its payload, and between paced arrivals every arrived entry is delivered or parked; 24 (400) cases',
     'trusted_base': [
         'Coq 8.16.1 kernel; vm_compute for evaluating the model on cases',
         'no axioms',
@@ -60,5 +60,5 @@ SPEC = {
     ],
     'assumptions': ['one consumer loop per store; registrations are issued by one thread at a time (GroupContext handles metadata '
                     'events sequentially)',
-                    'in the model no message counter lies beyond the ratchet window (C02) and no transient secret-store error occurs; counters beyond the window are exercised by the window stream against the implementation only'],
+                    'the scheduling model (Model.C08_Pipeline) has no key window: there a message opens iff its counter is not below the announcement; the key window is the subject of the sequential model Model.C08_Window (one consumer, registration = RegisterChainKey + flush), whose theorems hold for every window, history and number of devices; no transient secret-store error occurs in either'],
 }
